@@ -46,6 +46,7 @@ REASON_OK = M(0x09, 0x20, (0x21, 0x7E))
 OBS = M((0x80, 0xFF))
 VISIBLE_STOP = FULL & ~(M(0x20, 0x09, 0x0D, 0x0A))  # bytes that end the trailing-whitespace trim
 
+DUMMY_LOC = ("B", (("B", 1),), 0)
 ERRS = ("HeaderName", "HeaderValue", "NewLine", "Status", "Token", "TooManyHeaders", "Version")
 
 
@@ -84,6 +85,7 @@ class SpecMon(Monitor):
         self.det = ("start",) if kind in ("request", "response") else (("line0",) if kind == "headers" else ("c0",))
         self.det_at = None
         self.dflt = None  # the default-options reference running alongside (configured roots only)
+        self.lite = False  # lite: only the automaton state is tracked (no positions, no values)
 
     def clone(self):
         c = SpecMon.__new__(SpecMon)
@@ -104,6 +106,8 @@ class SpecMon(Monitor):
 
     # ---- plumbing ---------------------------------------------------------------------------
     def map_values(self, fv, floc):
+        if self.dflt is not None:
+            self.dflt.map_values(fv, floc)
         self.marks = {k: floc(v) for k, v in self.marks.items()}
         self.exp = {k: self.map_exp(v, fv, floc) for k, v in self.exp.items()}
         if self.pend is not None:
@@ -121,7 +125,7 @@ class SpecMon(Monitor):
         return tuple(floc(x) if isinstance(x, tuple) and x and x[0] == "B" else x for x in e)
 
     def symbols(self):
-        out = set()
+        out = set(self.dflt.symbols()) if self.dflt is not None else set()
         for loc in list(self.marks.values()) + ([self.verdict[1]] if self.verdict and self.verdict[0] == "complete" else []) + ([self.last_end] if self.last_end else []) + ([self.det_at] if self.det_at else []):
             for s, c in loc[1]:
                 out.add(s)
@@ -143,7 +147,7 @@ class SpecMon(Monitor):
         return out
 
     def cells(self):
-        out = []
+        out = list(self.dflt.cells()) if self.dflt is not None else []
         for v in self.vals.values():
             if v[0] == "cell":
                 out.append(v[1])
@@ -154,6 +158,9 @@ class SpecMon(Monitor):
         return out
 
     def rename_cells(self, ren):
+        if self.dflt is not None:
+            self.dflt.rename_cells(ren)
+
         def r(v):
             if v[0] == "cell":
                 return ("cell", ren[v[1]], v[2], v[3], v[4])
@@ -288,6 +295,8 @@ class SpecMon(Monitor):
     def consume(self, m, st, cid, i):
         """One byte passes under the cursor."""
         self.nconsumed += 1
+        if self.q[0] not in ("DONE", "ERR"):
+            self.classify(m, st, cid)  # split along the grammar's classes first
         self.detect(m, st, cid, self.pos(st, i + 1))
         if self.dflt is not None and self.dflt.q[0] not in ("DONE", "ERR"):
             d = self.dflt
@@ -296,8 +305,10 @@ class SpecMon(Monitor):
             if d.q[0] not in ("DONE", "ERR"):
                 lab = d.classify(m, st, cid)
                 d.pend = None
-                d.step(m, st, cid, lab, self.pos(st, i), self.pos(st, i + 1))
+                d.step(m, st, cid, lab, DUMMY_LOC, DUMMY_LOC)
                 d.pend = None
+                d.vals = {}
+                d.exp = {}
         if self.q[0] in ("DONE", "ERR"):
             # bytes consumed after the reference has decided: only legal on the way to reporting
             # that same decision; recorded and checked at return
@@ -340,8 +351,9 @@ class SpecMon(Monitor):
         is_cr = not (mask & ~CR & FULL)
         no_cr = not (mask & CR)
         if not ((is_lf or no_lf) and (is_cr or no_cr)):
-            self.det = ("lost",)
-            return
+            # the detector needs to know: split the byte into CR / LF / anything else
+            parts = [("det:cr", CR), ("det:lf", LF), ("det:other", other(CR, LF))]
+            raise Fork([(lab, (lambda mm: (lambda s_: s_.refine(cid, mm)))(pm)) for lab, pm in parts if mask & pm], "framing detector class")
         if d[0] == "c0":  # chunk: looking for CR LF
             self.det = ("c1",) if is_cr else ("c0",)
             return
@@ -743,6 +755,9 @@ class SpecMon(Monitor):
 
     # helpers ------------------------------------------------------------------------------------------
     def digit(self, m, st, cid, idx):
+        if self.lite:
+            self.q = ("A",) if idx == 2 else ("DG", idx + 1)
+            return
         b = self.u8(m, st, cid)
         d = m.cast_int(st, m.binop(st, "Sub", b, mk_int(48, 8)), 16, False)
         w = [100, 10, 1][idx]
@@ -860,6 +875,13 @@ class SpecMon(Monitor):
         else:
             inner = v
         e = self.exp.get(f)
+        phase_now, self.phase = self.phase, "start-line"
+        try:
+            self.store_field(m, st, f, e, inner)
+        finally:
+            self.phase = phase_now
+
+    def store_field(self, m, st, f, e, inner):
         if e is None:
             self.bad(m, st, "field", "field %s stored before the reference has delimited it (state %s)" % (f, self.q[0]))
         if f in self.got:
@@ -987,8 +1009,10 @@ class SpecMon(Monitor):
         return False
 
     def check_slice(self, m, st, f, s_loc, e_loc, v, trim=False):
-        if v[0] != "fat" or v[1][0] != "B":
-            self.bad(m, st, "field", "%s is not a slice of the input buffer (%s)" % (f, v[1][0] if v[0] == "fat" else v[0]))
+        if v[0] == "fat" and v[1][0] != "B":
+            return  # not a slice of the buffer: C04's zero-copy rule has reported it; content cannot be compared here
+        if v[0] != "fat":
+            self.bad(m, st, "field", "%s is not a slice (%s)" % (f, v[0]))
         if not self.same_pos(st, v[1], s_loc):
             self.bad(m, st, "field", "%s starts at %s, the reference field starts at %s" % (f, self.show_loc(st, v[1]), self.show_loc(st, s_loc)))
         ln = v[2]
@@ -1123,7 +1147,7 @@ class SpecMon(Monitor):
             if not (st.eof and k >= len(st.tape)):
                 # the reference still needs input the implementation has not looked at
                 if kind != "partial":
-                    self.bad(m, st, "verdict", "implementation returned %s but the reference needs more input (state %s)" % (show_verdict(kind, payload), sim.q[0]))
+                    self.bad(m, st, "verdict", "implementation returned %s while the reference still accepts the input so far" % show_verdict(kind, payload))
                 else:
                     self.bad(m, st, "partial", "Partial returned although unread input may remain")
             want = "partial"
@@ -1142,6 +1166,8 @@ class SpecMon(Monitor):
             self.check_partial_fields(m, st)
             return
         if kind == "err":
+            if want == "partial":
+                self.bad(m, st, "verdict", "implementation returned Err(%s) while the reference still accepts the input so far" % payload)
             if want != "err":
                 self.bad(m, st, "verdict", "implementation returned Err(%s), reference says %s" % (payload, want if want != "complete" else "Complete"))
             if sv[1] != payload:
@@ -1310,4 +1336,6 @@ def spec_for_root(root, kind):
     mon = SpecMon(kind, root, opts)
     if configured and names:
         mon.dflt = SpecMon(kind, root, {k: ("const", False) for k in names})
+        mon.dflt.lite = True
+        mon.dflt.det = ("lost",)
     return mon
